@@ -2,7 +2,8 @@ package vharness
 
 import (
 	"context"
-	"fmt"
+	"sort"
+	"strings"
 	"time"
 
 	varmq "github.com/goptics/varmq"
@@ -11,14 +12,20 @@ import (
 
 // C18: goroutine accounting over Stop/Restart cycles, with and without a context and idle expiry.
 
+// liveNames lists the distinct spawn sites of the library goroutines that are still alive.
 func liveNames() string {
-	s := ""
+	set := map[string]bool{}
 	vrt.ThreadsSnapshot(func(t *vrt.Thread) {
 		if t.Lib && !t.Env && !t.Done() {
-			s += " " + t.Name
+			set[t.Name] = true
 		}
 	})
-	return s
+	var names []string
+	for n := range set {
+		names = append(names, n)
+	}
+	sort.Strings(names)
+	return " " + strings.Join(names, " ")
 }
 
 func init() {
@@ -54,7 +61,7 @@ func init() {
 							lim++
 						}
 						if n := vrt.LiveLib(""); n > lim {
-							h.viol("C18", "C18.cycle-growth", fmt.Sprintf("%d library goroutines alive in a later run, at most %d belong to it:%s", n, lim, liveNames()))
+							h.viol("C18", "C18.cycle-growth", "more library goroutines are alive in a later run than belong to it:"+liveNames())
 						}
 					}
 					w.Stop()
@@ -87,7 +94,7 @@ func init() {
 			w := h.NewWorker(Plain, 1, varmq.WithContext(ctx))
 			q := w.Bind(Fifo, nil)
 			q.Add(0, AddOpt{})
-			go func() { cancel() }()
+			go func() { c := h.ctlCall(w, "Cancel", 0); cancel(); h.ctlRet(c, nil); w.RefState = "?" }()
 			q.Add(1, AddOpt{})
 			h.Quiesce(true)
 			if st := w.Wk.Status(); st != "Stopped" {
